@@ -165,7 +165,9 @@ func cmdCheck(args []string) int {
 			if !hasTag(o, id) {
 				continue
 			}
-			if pc.OnlyTagged && len(o.Tags) == 0 && !o.Cover {
+			if pc.OnlyTagged && len(o.Tags) == 0 && !o.Cover && strings.HasPrefix(o.Name, "safety/") {
+				// zero-annotation safety obligations are counted under C08 only;
+				// untagged invariants / preconditions / frames support the tagged clauses
 				continue
 			}
 			if len(pc.Kinds) > 0 && !o.Cover {
